@@ -222,7 +222,7 @@ func ruleTypedNil(c *Ctx) {
 			key := fmt.Sprintf("%s:%s %s#%d", fnName(fn), how, name, ord[name+how])
 			if knownNonNilIn(v, at.Block()) || sameBlockGuard(v, at) {
 				c.S.OK("R-typed-nil", key, c.Pos(c.InstrPos(at)), "dominated by a nil test on the accessor result")
-			} else if nm.statusGuarantees(v, at.Block()) {
+			} else if nm.statusGuarantees(v, at.Block()) || nm.pathProvesNonNil(fn, v, at) {
 				c.S.OK("R-typed-nil", key, c.Pos(c.InstrPos(at)), "the lookup helper returns a non-nil aggregate whenever its status result has the value established on this path")
 			} else {
 				c.S.Bad("R-typed-nil", key, c.Pos(c.InstrPos(at)), fmt.Sprintf("%s dereferences a %s that comes from a typed accessor (nil when the key holds another type) without a dominating nil test: a wrong-typed key crashes the process", fnName(fn), name))
@@ -356,13 +356,30 @@ func (nm *nilModel) nonNilWhen(g *ssa.Function, i int) []nnCond {
 				if j == i || j >= len(ret.Results) {
 					continue
 				}
-				bt, ok := res.At(j).Type().Underlying().(*types.Basic)
-				if !ok || bt.Info()&(types.IsInteger|types.IsBoolean) == 0 {
-					continue
-				}
-				k, isC := constStatus(val(ret.Results[j]))
-				if !isC {
-					unusable[j] = true
+				vj := val(ret.Results[j])
+				var k int64
+				switch rt := res.At(j).Type().Underlying().(type) {
+				case *types.Basic:
+					if rt.Info()&(types.IsInteger|types.IsBoolean) == 0 {
+						continue
+					}
+					kk, isC := constStatus(vj)
+					if !isC {
+						unusable[j] = true
+						continue
+					}
+					k = kk
+				case *types.Pointer, *types.Interface:
+					if isAggType(nm.c, res.At(j).Type()) {
+						continue
+					}
+					// status "nil" (no error): definitely non-nil values do not count, anything else may be nil
+					switch vj.(type) {
+					case *ssa.Global, *ssa.Alloc, *ssa.MakeInterface, *ssa.FieldAddr:
+						continue
+					}
+					k = -1
+				default:
 					continue
 				}
 				c := nnCond{j, k}
@@ -425,6 +442,11 @@ func (nm *nilModel) statusGuaranteesOnEdge(v ssa.Value, blk *ssa.BasicBlock, suc
 		return false
 	}
 	fn := blk.Parent()
+	// all return cases of the helper consistent with the branches that dominate this point return a non-nil aggregate
+	domAllows := nm.domAllows(blk, succ)
+	if nm.nonNilByCases(call, ex.Index, domAllows) {
+		return true
+	}
 	for _, cnd := range nm.nonNilWhen(g, ex.Index) {
 		// the extract of result j
 		var vj ssa.Value
@@ -439,6 +461,13 @@ func (nm *nilModel) statusGuaranteesOnEdge(v ssa.Value, blk *ssa.BasicBlock, suc
 		kind := "enum"
 		if b, ok := vj.Type().Underlying().(*types.Basic); ok && b.Kind() == types.Bool {
 			kind = "bool"
+		}
+		if cnd.k == -1 {
+			// "result j is nil": established by the nil side of a nil test on it
+			if knownNilOnEveryPath(vj, blk) {
+				return true
+			}
+			continue
 		}
 		d := statusDomain{all: 0xff, kind: kind}
 		want := uint32(1) << uint32(cnd.k)
@@ -473,4 +502,439 @@ func (nm *nilModel) statusGuaranteesOnEdge(v ssa.Value, blk *ssa.BasicBlock, suc
 		}
 	}
 	return false
+}
+
+func isAggType(c *Ctx, t types.Type) bool {
+	return c.isPkgType(t, "storeList") || c.isPkgType(t, "redisDict")
+}
+
+// knownNilOnEveryPath: blk is dominated by the nil side of a nil test on v.
+func knownNilOnEveryPath(v ssa.Value, blk *ssa.BasicBlock) bool {
+	fn := blk.Parent()
+	for _, d := range fn.Blocks {
+		s := nonNilSucc(d, v)
+		if s == nil {
+			continue
+		}
+		nilSide := d.Succs[0]
+		if nilSide == s {
+			nilSide = d.Succs[1]
+		}
+		if len(nilSide.Preds) == 1 && (nilSide == blk || nilSide.Dominates(blk)) {
+			return true
+		}
+	}
+	return false
+}
+
+// pathProvesNonNil: on every feasible path from the entry of fn to the use, the facts of the path prove v non-nil.
+func (nm *nilModel) pathProvesNonNil(fn *ssa.Function, v ssa.Value, at ssa.Instruction) bool {
+	if len(fn.Blocks) == 0 || len(fn.Blocks) > 120 {
+		return false
+	}
+	n := 0
+	ok := explorePaths(fn, at, func(pf *pathFacts) bool {
+		n++
+		return nm.nonNilOnPath(pf, v, 0)
+	})
+	return ok && n > 0
+}
+
+func (nm *nilModel) nonNilOnPath(pf *pathFacts, v ssa.Value, depth int) bool {
+	if depth > 4 {
+		return false
+	}
+	r := pf.resolve(v)
+	if isNilConst(r) {
+		return false
+	}
+	if pf.nilness[r] == 1 {
+		return true
+	}
+	if pf.nilness[r] == -1 {
+		return false
+	}
+	if !nm.nilableSource(r, map[ssa.Value]bool{}) {
+		return true
+	}
+	// a local cell
+	if u, ok := r.(*ssa.UnOp); ok && u.Op == token.MUL {
+		if al, ok := u.X.(*ssa.Alloc); ok {
+			for _, rr := range referrers(al) {
+				if st, ok := rr.(*ssa.Store); ok && st.Addr == ssa.Value(al) {
+					if !nm.nonNilOnPath(pf, st.Val, depth+1) {
+						return false
+					}
+				}
+			}
+			return true
+		}
+	}
+	ex, ok := r.(*ssa.Extract)
+	if !ok {
+		return false
+	}
+	call, ok := ex.Tuple.(*ssa.Call)
+	if !ok {
+		return false
+	}
+	g := call.Call.StaticCallee()
+	if g == nil || !nm.c.InPkg(g) {
+		return false
+	}
+	pathAllows := func(j int, e2 *ssa.Extract, val int64) bool {
+		if val == -1 {
+			return pf.nilness[e2] != 1
+		}
+		if val == -2 {
+			return pf.nilness[e2] != -1
+		}
+		if bt, ok := e2.Type().Underlying().(*types.Basic); ok && bt.Kind() == types.Bool {
+			if t, known := pf.truth[e2]; known {
+				return t == (val == 1)
+			}
+			return true
+		}
+		if pf.hasEq[e2] {
+			return pf.eq[e2] == val
+		}
+		return !pf.ne[e2][val]
+	}
+	if nm.nonNilByCases(call, ex.Index, pathAllows) {
+		return true
+	}
+	for _, cnd := range nm.nonNilWhen(g, ex.Index) {
+		for _, rr := range referrers(call) {
+			e2, ok := rr.(*ssa.Extract)
+			if !ok || e2.Index != cnd.j {
+				continue
+			}
+			if cnd.k == -1 {
+				if pf.nilness[e2] == -1 {
+					return true
+				}
+				continue
+			}
+			if bt, ok := e2.Type().Underlying().(*types.Basic); ok && bt.Kind() == types.Bool {
+				if t, known := pf.truth[e2]; known && t == (cnd.k == 1) {
+					return true
+				}
+				continue
+			}
+			if pf.hasEq[e2] && pf.eq[e2] == cnd.k {
+				return true
+			}
+			// all other values the helper can return have been excluded on this path
+			if vs := statusValuesMemo[fmt.Sprintf("%s#%d", fnName(g), ex.Index)][cnd.j]; vs != 0 {
+				left := vs
+				for k := range pf.ne[e2] {
+					if k >= 0 && k < 31 {
+						left &^= 1 << uint32(k)
+					}
+				}
+				if left == 1<<uint32(cnd.k) {
+					return true
+				}
+			}
+		}
+	}
+	return false
+}
+
+// ---------------------------------------------------------------- return cases of lookup helpers
+
+// retCase: one way a helper can return — the nilness of the aggregate result and the values of its status results
+// (integers / booleans as constants, pointers as -1 = nil, -2 = certainly non-nil; unknown values are absent).
+type retCase struct {
+	nilness int // -1 nil, +1 non-nil
+	st      map[int]int64
+}
+
+var retCasesMemo = map[string][]retCase{}
+
+func (nm *nilModel) retCases(g *ssa.Function, i int) []retCase {
+	key := fmt.Sprintf("%s#%d", fnName(g), i)
+	if r, ok := retCasesMemo[key]; ok {
+		return r
+	}
+	retCasesMemo[key] = nil
+	res := g.Signature.Results()
+	var out []retCase
+	for _, b := range g.Blocks {
+		ret, ok := b.Instrs[len(b.Instrs)-1].(*ssa.Return)
+		if !ok || i >= len(ret.Results) {
+			continue
+		}
+		edges := []int{-1}
+		if len(b.Preds) > 1 {
+			edges = nil
+			for e := range b.Preds {
+				edges = append(edges, e)
+			}
+		}
+		for _, e := range edges {
+			at := b
+			val := func(v ssa.Value) ssa.Value {
+				if phi, ok := v.(*ssa.Phi); ok && phi.Block() == b && e >= 0 {
+					return phi.Edges[e]
+				}
+				return v
+			}
+			if e >= 0 {
+				at = b.Preds[e]
+			}
+			vi := val(ret.Results[i])
+			// the aggregate is handed on from another helper: compose with that helper's cases that are consistent
+			// with the branches leading to this return
+			if ex0, ok := vi.(*ssa.Extract); ok {
+				if hc, ok := ex0.Tuple.(*ssa.Call); ok && hc.Call.StaticCallee() != nil && nm.c.InPkg(hc.Call.StaticCallee()) && hc.Call.StaticCallee() != g {
+					h := hc.Call.StaticCallee()
+					var succB *ssa.BasicBlock
+					if e >= 0 {
+						succB = b
+					}
+					allows := nm.domAllows(at, succB)
+					exOf := map[int]*ssa.Extract{}
+					for _, rr := range referrers(hc) {
+						if e2, ok := rr.(*ssa.Extract); ok {
+							exOf[e2.Index] = e2
+						}
+					}
+					composed := false
+					for _, hcase := range nm.retCases(h, ex0.Index) {
+						consistent := true
+						for j2, k2 := range hcase.st {
+							if e2 := exOf[j2]; e2 != nil && !allows(j2, e2, k2) {
+								consistent = false
+							}
+						}
+						// … and with what the branches say about the aggregate itself
+						if hcase.nilness == -1 && (knownNonNilIn(vi, at) || (e >= 0 && nonNilSucc(at, vi) == b)) {
+							consistent = false
+						}
+						if hcase.nilness == 1 && (knownNilOnEveryPath(vi, at) || (e >= 0 && nonNilSucc(at, vi) != nil && nonNilSucc(at, vi) != b)) {
+							consistent = false
+						}
+						if !consistent {
+							continue
+						}
+						composed = true
+						c := retCase{nilness: hcase.nilness, st: map[int]int64{}}
+						for j := 0; j < res.Len() && j < len(ret.Results); j++ {
+							if j == i {
+								continue
+							}
+							vj := val(ret.Results[j])
+							if k, isC := constStatus(vj); isC {
+								c.st[j] = k
+							} else if isNilConst(vj) {
+								c.st[j] = -1
+							} else if e2, ok := vj.(*ssa.Extract); ok && e2.Tuple == ssa.Value(hc) {
+								if k2, ok := hcase.st[e2.Index]; ok {
+									c.st[j] = k2
+								}
+							}
+						}
+						out = append(out, c)
+					}
+					if composed {
+						continue
+					}
+				}
+			}
+			nl := 0
+			switch {
+			case isNilConst(vi):
+				nl = -1
+			case !nm.nilableSource(vi, map[ssa.Value]bool{}) || knownNonNilIn(vi, at) || (e >= 0 && nonNilSucc(at, vi) == b):
+				nl = 1
+			case knownNilOnEveryPath(vi, at):
+				nl = -1
+			}
+			base := retCase{nilness: nl, st: map[int]int64{}}
+			// statuses; a status defined as (vi == nil) / (vi != nil) ties the two together
+			tied := map[int]bool{} // j -> true: status is 1 exactly when vi is nil
+			tiedNeg := map[int]bool{}
+			for j := 0; j < res.Len() && j < len(ret.Results); j++ {
+				if j == i {
+					continue
+				}
+				vj := val(ret.Results[j])
+				switch rt := res.At(j).Type().Underlying().(type) {
+				case *types.Basic:
+					if rt.Info()&(types.IsInteger|types.IsBoolean) == 0 {
+						continue
+					}
+					if k, isC := constStatus(vj); isC {
+						base.st[j] = k
+					} else if t, known := dominatingTruths(at)[vj]; known && rt.Kind() == types.Bool {
+						// a boolean handed on from a callee whose value is fixed by the branch that leads here
+						if t {
+							base.st[j] = 1
+						} else {
+							base.st[j] = 0
+						}
+					} else if e >= 0 && rt.Kind() == types.Bool && func() bool {
+						// … or by the very edge into the return block
+						ifi, ok := at.Instrs[len(at.Instrs)-1].(*ssa.If)
+						if !ok {
+							return false
+						}
+						cond, neg := ifi.Cond, false
+						if u, isU := cond.(*ssa.UnOp); isU && u.Op == token.NOT {
+							cond, neg = u.X, true
+						}
+						if cond != vj {
+							return false
+						}
+						tv := (at.Succs[0] == b) != neg
+						if tv {
+							base.st[j] = 1
+						} else {
+							base.st[j] = 0
+						}
+						return true
+					}() {
+					} else if bo, ok := vj.(*ssa.BinOp); ok && (bo.Op == token.EQL || bo.Op == token.NEQ) &&
+						((bo.X == vi && isNilConst(bo.Y)) || (bo.Y == vi && isNilConst(bo.X))) {
+						if bo.Op == token.EQL {
+							tied[j] = true
+						} else {
+							tiedNeg[j] = true
+						}
+					}
+				case *types.Pointer, *types.Interface:
+					if isAggType(nm.c, res.At(j).Type()) {
+						continue
+					}
+					switch {
+					case isNilConst(vj):
+						base.st[j] = -1
+					default:
+						switch vj.(type) {
+						case *ssa.Global, *ssa.Alloc, *ssa.MakeInterface, *ssa.FieldAddr:
+							base.st[j] = -2
+						}
+					}
+				}
+			}
+			variants := []int{nl}
+			if nl == 0 {
+				variants = []int{-1, 1}
+			}
+			for _, n2 := range variants {
+				c := retCase{nilness: n2, st: map[int]int64{}}
+				for j, k := range base.st {
+					c.st[j] = k
+				}
+				for j := range tied {
+					if n2 == -1 {
+						c.st[j] = 1
+					} else {
+						c.st[j] = 0
+					}
+				}
+				for j := range tiedNeg {
+					if n2 == -1 {
+						c.st[j] = 0
+					} else {
+						c.st[j] = 1
+					}
+				}
+				out = append(out, c)
+			}
+		}
+	}
+	retCasesMemo[key] = out
+	return out
+}
+
+// nonNilByCases: every return case of the helper that is consistent with what is known about the other results of the
+// call (allows(j, value) == false means "result j certainly does not have that value here") returns a non-nil aggregate.
+func (nm *nilModel) nonNilByCases(call *ssa.Call, i int, allows func(j int, ex *ssa.Extract, val int64) bool) bool {
+	g := call.Call.StaticCallee()
+	if g == nil || !nm.c.InPkg(g) {
+		return false
+	}
+	cases := nm.retCases(g, i)
+	if len(cases) == 0 {
+		return false
+	}
+	exOf := map[int]*ssa.Extract{}
+	for _, rr := range referrers(call) {
+		if e2, ok := rr.(*ssa.Extract); ok {
+			exOf[e2.Index] = e2
+		}
+	}
+	consistentSeen := false
+	for _, cs := range cases {
+		consistent := true
+		for j, k := range cs.st {
+			ex := exOf[j]
+			if ex == nil {
+				continue
+			}
+			if !allows(j, ex, k) {
+				consistent = false
+			}
+		}
+		if !consistent {
+			continue
+		}
+		consistentSeen = true
+		if cs.nilness != 1 {
+			return false
+		}
+	}
+	return consistentSeen
+}
+
+// domAllows: what the branches dominating blk (and the edge blk→succ, if given) leave possible for a result of a call.
+func (nm *nilModel) domAllows(blk, succ *ssa.BasicBlock) func(j int, e2 *ssa.Extract, val int64) bool {
+	fn := blk.Parent()
+	return func(j int, e2 *ssa.Extract, val int64) bool {
+		if val < 0 { // pointer status
+			if succ != nil {
+				if nn := nonNilSucc(blk, e2); nn != nil && blk.Succs[0] != blk.Succs[1] {
+					if (nn == succ) == (val == -1) {
+						return false // the edge itself decides the nil test the other way
+					}
+				}
+			}
+			if val == -1 {
+				return !knownNonNilIn(e2, blk)
+			}
+			return !knownNilOnEveryPath(e2, blk)
+		}
+		kind := "enum"
+		d := statusDomain{all: 0x7fffffff, kind: kind}
+		if b, ok := e2.Type().Underlying().(*types.Basic); ok && b.Kind() == types.Bool {
+			d = statusDomain{all: 3, kind: "bool"}
+		}
+		m := d.all
+		if succ != nil {
+			if ifi, ok := blk.Instrs[len(blk.Instrs)-1].(*ssa.If); ok {
+				for si, s2 := range blk.Succs {
+					if s2 == succ {
+						m = refineStatus(ifi.Cond, e2, d, m, si)
+					}
+				}
+			}
+		}
+		for _, dblk := range fn.Blocks {
+			ifi, ok := dblk.Instrs[len(dblk.Instrs)-1].(*ssa.If)
+			if !ok || dblk == blk || !dblk.Dominates(blk) {
+				continue
+			}
+			for si, s := range dblk.Succs {
+				if len(s.Preds) == 1 && (s == blk || s.Dominates(blk)) {
+					m = refineStatus(ifi.Cond, e2, d, m, si)
+				}
+			}
+		}
+		if val > 30 {
+			return true
+		}
+		return m&(1<<uint32(val)) != 0
+	}
 }
